@@ -6,6 +6,8 @@ mod ext;
 mod ext2;
 mod ext3;
 mod ext4;
+mod ext_c11;
+mod ext_c14;
 mod enc;
 mod gen;
 mod interp;
